@@ -150,7 +150,17 @@ impl Manifest {
         let mut begin = false;
 
         for value in stream {
-            let value = value?;
+            let value = match value {
+                Ok(value) => value,
+                // A crash in the middle of `append` leaves a truncated record at the end of the file.
+                // It belongs to a transaction that never wrote its `End`: ignore it, like any other
+                // uncommitted tail, instead of refusing to open the database.
+                Err(e) if e.is_eof() => {
+                    warn!("manifest: truncated record at the end of file, ignored");
+                    break;
+                }
+                Err(e) => return Err(e.into()),
+            };
             match value {
                 ManifestOperation::Begin => begin = true,
                 ManifestOperation::End => {
